@@ -359,8 +359,22 @@ def conclude(c, drv, groups):
         if g['key'] and c.is_known(g['key']):
             c.known(g['key'], c.kf[g['key']]['description'])
         elif g['why'] == 'convergence':
-            # never a verdict from a wait alone (DESIGN section 6): machinery / inconclusive
-            c.inconclusive.append('file datasource did not converge within 2.5 s of quiet after the event (%s): %s' % (gsig, what[:600]))
+            # Never a verdict from a wait alone (DESIGN section 6).  The state stayed unjustified after 2.5 s of quiet in two fresh
+            # processes; it becomes a violation only if, in a third process, the SAME datasource instance is shown to be alive:
+            # a further write of different content (appended to the scenario) is picked up, while the event in question still
+            # never is.  Otherwise (slow machine, dead watcher for another reason): inconclusive.
+            cut = max([i for i, o in enumerate(s) if o.get('op') == 'fevent' and o.get('ev') == ev.get('ev')] or [len(s) - 1])
+            ctl = [dict(o) for o in s[:cut + 1]] + [dict(op='fevent', ev='write', kind='list', l=['V3', 'V1', 'V2'])]
+            ctl[0]['tr'] = 990000 + k
+            mism2, tp2 = run_and_validate(c, drv, [ctl], 'control%d' % k, count=False)
+            evs = [e for e in read_ndjson(tp2) if e.get('op') == 'fevent']
+            alive = bool(evs) and not evs[-1].get('panic') and sorted(evs[-1].get('after') or []) == ['V1', 'V2', 'V3']
+            still = any(signature(mod, exp2, ev2)[1] == gsig for _, _, exp2, ev2 in mism2)
+            if alive and still:
+                c.violation(what + ' -- the datasource is alive (a later write of other content was applied) but this event never was', rp)
+            else:
+                c.inconclusive.append('file datasource did not converge within 2.5 s of quiet after the event (%s; control write applied: %s): %s'
+                                      % (gsig, alive, what[:600]))
         else:
             c.violation(what, rp)
 
@@ -569,7 +583,7 @@ def check(c, tier, replay):
         'what a payload describes is decided by the driver with encoding/json and its own mirror of the wire format (struct tags of core/<module>/rule.go; hot-spot specificItems in the ext/datasource encoding); validity of a described rule is the module\'s exported IsValid... function (the validity filter itself is property C13)',
         'rules are compared as sets of canonical field tuples; ids only in single-delivery wire-format scenarios (the rule managers ignore the id in their equality); flow warmUpColdFactor <= 1 on a warm-up rule and the hot-spot specificItems encoding are normalised on both sides',
         'rules naming a strategy / behaviour without generator, statistic intervals above one hour or unreadable specific items are outside the decidable domain (dom=false): only "no panic" and "error => unchanged" are judged for them',
-        'file datasource: convergence is judged after the module state has been quiet for the grace period (150 ms; 2.5 s on confirmation); a state that is merely late is reported as inconclusive (exit 2), only a state the file never justified is a violation',
+        'file datasource: convergence is judged after the module state has been quiet for the grace period (150 ms; 2.5 s on confirmation); a state that is merely late is reported as inconclusive (exit 2); a state the file never justified is a violation, and so is an event that is never applied in three fresh processes while a later control write on the same instance is',
         'TLC model checking is exhaustive only for the bounds listed in tlc_runs']
 
 
